@@ -105,8 +105,10 @@ func init() {
 					return strings.Contains(o.Construct, "wrapped in a thunk")
 				case "RW.TMPL.HOIST":
 					return false
-				case "SEQ.GEN": // which step runs in which advancing call; Current/Result are C09's
-					return strings.HasPrefix(o.Construct, "MoveNext") || strings.HasPrefix(o.Construct, "Send") || o.Construct == "coverage"
+				case "SEQ.GEN": // which step runs in which advancing call; the values of Current/Result are C09's,
+					// but a Current/Result that runs generator code lets its panics out of a call that is not an advance
+					return strings.HasPrefix(o.Construct, "MoveNext") || strings.HasPrefix(o.Construct, "Send") || o.Construct == "coverage" ||
+						strings.Contains(o.Detail+strings.Join(o.Trace, " "), "generator code run")
 				case "RW.TMPL.RETURN":
 					return !strings.HasPrefix(o.Construct, "nested ordinary closure")
 				case "OPT.ETA":
